@@ -49,6 +49,8 @@ type cover struct {
 	flags   [8]int64
 	nameLen [256]int64
 	labelBy [256]bool
+	shapes  [8]int64 // hits per layout of Q()'s additional section x DO
+	shapeDO [8]int64
 }
 
 func newAggregator() *aggregator {
@@ -59,6 +61,10 @@ func (c *cover) sawHit(s *qspec) {
 	c.types[s.Type/64] |= uint64(1) << (s.Type % 64)
 	c.classes[s.Class/64] |= uint64(1) << (s.Class % 64)
 	c.flags[s.flags()]++
+	c.shapes[s.Shape%8]++
+	if s.QDO {
+		c.shapeDO[s.Shape%8]++
+	}
 	if len(s.Name) < 256 {
 		if c.nameLen[len(s.Name)] < 64 { // label bytes of the first names of each length
 			for _, l := range labelsOf(s.Name) {
@@ -80,6 +86,8 @@ func (a *aggregator) merge(c *cover) {
 	}
 	for i := range c.flags {
 		a.cov.flags[i] += c.flags[i]
+		a.cov.shapes[i] += c.shapes[i]
+		a.cov.shapeDO[i] += c.shapeDO[i]
 	}
 	for i := range c.nameLen {
 		a.cov.nameLen[i] += c.nameLen[i]
@@ -95,6 +103,11 @@ func (a *aggregator) coverage() {
 		nt += bits.OnesCount64(a.cov.types[i])
 		nc += bits.OnesCount64(a.cov.classes[i])
 	}
+	lay := map[string]any{}
+	for i, sh := range extraShapes {
+		lay[sh.text] = map[string]int64{"answered_from_cache": a.cov.shapes[i], "of_which_DO_set": a.cov.shapeDO[i]}
+	}
+	rep.Extra("Q_additional_section_layouts", lay)
 	rep.Extra("distinct_types_answered_from_cache", nt)
 	rep.Extra("distinct_classes_answered_from_cache", nc)
 	fc := 0
@@ -279,6 +292,9 @@ func describe(s specJSON) string {
 	}
 	if len(n) > 80 {
 		n = n[:40] + "…" + n[len(n)-30:]
+	}
+	if s.Shape != 0 {
+		fl += " Q.extra=" + strings.ReplaceAll(s.ShapeText, " ", ",")
 	}
 	return fmt.Sprintf("[%q type=%d class=%d%s]", n, s.Type, s.Class, fl)
 }
